@@ -156,6 +156,8 @@ func c01Gen(tier string, emit func(any)) {
 	pats := []pat{
 		{&model.Change{Kind: "expr", Lines: model.L("-foo(1)", "+mark(1)")}, []string{"foo(1)", "foo(2)", "foo(1, 1)", "foo()", "bar(1)", "foo(one...)"}, gen.ExprContexts()},
 		{&model.Change{Kind: "expr", Meta: xm, Lines: model.L("-foo(x)", "+mark(x)")}, []string{"foo(a + b)", "foo(a, b)", "foo(xs...)", "w.foo(a)", "foo(foo(a))"}, gen.ExprContexts()},
+		{&model.Change{Kind: "expr", Meta: xm, Lines: model.L("-foo(x, x)", "+mark(x)")}, []string{"foo(a, a)", "foo(a, b)", "foo((a), a)", "foo(g(b...), g(b))", "foo(g(b), g(b...))", "foo(g(b...), g(b...))",
+			"foo(func() { type T = int }, func() { type T int })", "foo(func() { var (\n\t\tv int\n\t) }, func() { var v int })", "foo(func(a ...int) {}, func(a int) {})", "foo([]int{}, [...]int{})", "foo(<-ch, ch)", "foo(chan<- int(nil), chan int(nil))"}, gen.ExprContexts()},
 		{&model.Change{Kind: "expr", Meta: xm, Lines: model.L("-x.sel", "+mark(x)")}, []string{"v.sel", "v.sel2", "v.w.sel", "v.sel.w"}, gen.ExprContexts()},
 		{&model.Change{Kind: "expr", Meta: xm, Lines: model.L("-x + 1", "+mark(x)")}, []string{"v + 1", "v - 1", "1 + v", "v + 1 + 1", "(v + 1)"}, gen.ExprContexts()},
 		{&model.Change{Kind: "stmts", Meta: xm, Lines: model.L("-v = foo(x)", "+v = mark(x)")}, []string{"v = foo(1)", "v := foo(1)", "v = foo(1, 2)", "w = foo(1)", "v, w = foo(1)", "v = foo(1)\n\tv = foo(2)"}, gen.StmtContexts()},
